@@ -16,7 +16,9 @@ MANIFEST = dict(
          "Dest()); the exact content of the list (C03_all_moves_spec: placements on empty squares by opening rule and capstone availability, "
          "slides = drop compositions within min(height,size) and the distance to the edge; built on C03_slides_table_spec); and, with C01, "
          "C03_legal_set_exact: the list filtered by MovePreallocated's verdict contains every rules-legal raw move exactly once up to Equal and "
-         "nothing else. Non-vacuity on a concrete 5x5 mid-game position (78 generated, 69 legal) and a refutation of completeness for the "
+         "nothing else - stated for the exact C01 invariant as well (C03_legal_set_exact_pos_ok: every position whose stacks fit the 64-piece stack "
+         "words) and for every position of a game replayed from tak.New with at most 64 pieces (C03_legal_set_exact_game: no hypothesis on the position). "
+         "Non-vacuity on a concrete 5x5 mid-game position (78 generated, 69 legal) and a refutation of completeness for the "
          "pinned tree without the bounds check. The model of AllMoves is compared with the implementation's list (as a set and in order) on "
          "every generated position, and an independent rules oracle enumerates the complete legal move set and checks completeness, duplicates, "
          "on-board endpoints and accepted-implies-generated directly on the implementation.",
